@@ -31,7 +31,10 @@ RULE_TEXT = ("cases: seeded generated elections (2-12 candidates, all 11 rules c
 
 def _work(task):
     R, seed, idx, tier = task
-    return c19.run_case(R, seed, idx, tier)
+    t0 = time.time()
+    r = c19.run_case(R, seed, idx, tier)
+    r['wall'] = time.time() - t0
+    return r
 
 
 def run(R, tier, seed):
@@ -130,6 +133,8 @@ def run(R, tier, seed):
             executed_package_lines=total_ref, lines_with_an_injection=total_inj,
             ratio=round(total_inj / total_ref, 4) if total_ref else 0.0,
             per_rule={k: [len(inj_sites.get(k, set()) & s), len(s)] for k, s in sorted(ref_sites.items())}),
+        slowest_case_wall_s=round(max((r.get('wall', 0.0) for r in results), default=0.0), 1),
+        sweep_crosschecks=sum(r.get('crosschecked', 0) for r in results),
         simulated_steps=steps,
         simulated_runs=execs,
         runs_per_hour=int(execs / wall * 3600) if wall > 0 else 0,
